@@ -46,7 +46,9 @@ func (o *Obligation) scriptText(withModel bool) string {
 		b.WriteString("(check-sat)\n")
 		return b.String()
 	}
-	fmt.Fprintf(&b, "(assert (not (=> %s %s)))\n", o.PC, o.Goal)
+	if o.Kind != "lemma" {
+		fmt.Fprintf(&b, "(assert (not (=> %s %s)))\n", o.PC, o.Goal)
+	}
 	b.WriteString("(check-sat)\n")
 	if withModel && len(o.Inputs) > 0 {
 		var ts []string
